@@ -136,7 +136,11 @@ func (s *BadSmellListener) EnterInterfaceMethodDeclaration(ctx *InterfaceMethodD
 		}
 	}
 
+	// a default or static interface method has a body like any class method
 	methodBSInfo := bs_domain.NewMethodBadSmellInfo()
+	if body := ctx.InterfaceCommonBodyDeclaration().(*InterfaceCommonBodyDeclarationContext).MethodBody(); body != nil {
+		methodBSInfo = buildMethodBodyBSInfo(body, methodBSInfo)
+	}
 
 	position := core_domain.CodePosition{
 		StartLine:         startLine,
@@ -275,7 +279,10 @@ func getModifier(ctx *MethodDeclarationContext) string {
 }
 
 func buildMethodBSInfo(context *MethodDeclarationContext, bsInfo bs_domain.FunctionBSInfo) bs_domain.FunctionBSInfo {
-	methodBody := context.MethodBody()
+	return buildMethodBodyBSInfo(context.MethodBody(), bsInfo)
+}
+
+func buildMethodBodyBSInfo(methodBody IMethodBodyContext, bsInfo bs_domain.FunctionBSInfo) bs_domain.FunctionBSInfo {
 	blockContext := methodBody.GetChild(0)
 	if reflect.TypeOf(blockContext).String() == "*parser.BlockContext" {
 		blcStatement := blockContext.(*BlockContext).AllBlockStatement()
